@@ -248,13 +248,31 @@ fn setter_matrix_cases(o: &mut Out, thorough: bool) {
         let mut ops: Vec<WOp> = vec![];
         let mut c = code;
         for _ in 0..len { ops.push(alphabet[(c % n as u64) as usize].clone()); c /= n as u64; }
-        // before the first image (only the canvas rectangle is legal there) and after it (any rectangle inside the canvas)
+        // before the first image (only the canvas rectangle is legal there) and after it (any rectangle inside the canvas); an image at the end
+        // shows the rectangle in force in its fcTL
         for after_first in [false, true] {
-            let ops: Vec<WOp> = if after_first { let mut v = vec![WOp::Image { stream: None, parts: vec![] }]; v.extend(ops.iter().cloned()); v } else { ops.clone() };
+            let ops: Vec<WOp> = { let mut v = if after_first { vec![WOp::Image { stream: None, parts: vec![] }] } else { vec![] }; v.extend(ops.iter().cloned()); v.push(WOp::Image { stream: None, parts: vec![] }); v };
             o.mark(&format!("setters {:?}", ops));
             let sink = Sink::new(0, None, false);
             let run = run_writer(&cfg, &ops, sink.clone(), false, &mut rng);
             o.direct_checks += 1;
+            // the same history through Model/FrameRect.v: result of every setter, rectangle of every fcTL written
+            if run.panicked.is_none() && run.results.len() == ops.len() + 1 {
+                let acc = sink.0.borrow().accepted.clone();
+                let fctls: Vec<String> = parse_strict(&acc).map(|cs| cs.iter().filter(|c| &c.ty == b"fcTL" && c.data.len() == 26).map(|c| {
+                    let g = |o: usize| u32::from_be_bytes([c.data[o], c.data[o + 1], c.data[o + 2], c.data[o + 3]]);
+                    format!("2:{}:{}:{}:{}", g(4), g(8), g(12), g(16)) }).collect()).unwrap_or_default();
+                let mut k = 0;
+                let text: Vec<String> = ops.iter().zip(run.results.iter().skip(1)).map(|(op, res)| {
+                    let ok = res.ends_with(" ok");
+                    match op {
+                        WOp::Image { .. } => { if ok { k += 1; fctls.get(k - 1).cloned().unwrap_or_else(|| "no-fcTL".into()) } else { "1".into() } }
+                        _ => if ok { "0".into() } else { "1".into() },
+                    }
+                }).collect();
+                let code: Vec<String> = ops.iter().map(|op| match op { WOp::FrameDim(a, b) => format!("D{}x{}", a, b), WOp::FramePos(a, b) => format!("P{}x{}", a, b), WOp::ResetDim => "RD".into(), WOp::ResetPos => "RP".into(), _ => "I".into() }).collect();
+                o.case(&format!("frect {} {} {}", cfg.w, cfg.h, code.join(",")), &text.join(" "), &format!("frect-{}", code.join(",")), true);
+            }
             if let Some(m) = &run.panicked {
                 o.violation(viol("writer-panicked", &format!("writer-panicked: {}", m.chars().take(50).collect::<String>()), vec![("config", jstr(&format!("{:?}", cfg))), ("ops", jstr(&format!("{:?}", ops))), ("why", jstr(m))]));
             } else if let Some(why) = run.illegal_accepted.first() {
